@@ -285,9 +285,9 @@ func c11CloseRace(e *c11Env, rng *kit.RNG, mode string) {
 // ---------------------------------------------------------------- cluster
 
 const c11ClusterRule = "3-server clusters (cursors stream: 1 partition, replication factor 3, small segments): concurrent clients at the cursors-partition leader L0, " +
-	"forced Clean() on every replica, checks; L0 is isolated (pauseReplication), given sets that cannot commit (kept open) and stopped; checks at the elected leader N1; " +
-	"new values for the hot keys at N1; L0 restarts and rejoins the ISR; the third replica is held out of the ISR (follower fetch gate) and N1 is isolated and stopped, " +
-	"so L0 - whose cache still holds its old values - leads again; checks at L0; everything restarts and a final check. Same oracle as the single-node histories. " +
+	"forced Clean() on every replica, checks; L0 is isolated (pauseReplication) and given sets that cannot commit (kept open); checks at the elected leader N1; " +
+	"new values for the hot keys at N1; L0's isolation ends and it rejoins the ISR as follower; the third replica is held out of the ISR (follower fetch gate) and N1 is isolated and stopped, " +
+	"so L0 - whose cache still holds the values of its first term - leads again; checks at L0; concurrent clients at L0; N1 restarts on its data directory; final check. Same oracle as the single-node histories. " +
 	"non-trivial = both leader changes happened and all checks ran; distinct = scenario seed"
 
 type c11Cluster struct {
@@ -504,18 +504,36 @@ func (cc *c11Cluster) cleanEverywhere() {
 	}
 }
 
-func (cc *c11Cluster) isolateAndStop(n *vfNode, hot []c11Key, rng *kit.RNG) {
-	cc.step("isolate+stop(%s)", n.ID)
+// isolate cuts the leader off from its followers (test-only switch of the
+// repository) and gives it sets that cannot commit: they time out and stay
+// open in the history.
+func (cc *c11Cluster) isolate(n *vfNode, hot []c11Key, rng *kit.RNG) {
+	cc.step("isolate(%s)", n.ID)
 	if p := n.Partition(cursorsStream, 0); p != nil {
 		p.pauseReplication()
 	}
-	// sets at the isolated leader cannot commit; they time out and stay open
 	old := cc.opTimeout
 	cc.opTimeout = 1200 * time.Millisecond
 	for i := 0; i < rng.Range(0, 2); i++ {
 		cc.doSet(n, 0, hot[rng.Intn(len(hot))], "isolated")
 	}
 	cc.opTimeout = old
+}
+
+// unpause ends the isolation of a deposed leader (the switch has no reset in
+// the repository; a real isolation ends when connectivity returns).
+func (cc *c11Cluster) unpause(n *vfNode) {
+	cc.step("unpause(%s)", n.ID)
+	if p := n.Partition(cursorsStream, 0); p != nil {
+		p.mu.Lock()
+		p.pause = false
+		p.mu.Unlock()
+	}
+}
+
+func (cc *c11Cluster) isolateAndStop(n *vfNode, hot []c11Key, rng *kit.RNG) {
+	cc.isolate(n, hot, rng)
+	cc.step("stop(%s)", n.ID)
 	if err := cc.c.StopNode(n.ID); err != nil {
 		cc.inconclusive("stop " + n.ID + ": " + err.Error())
 	}
@@ -584,18 +602,21 @@ func c11RunCluster(rep *kit.Report, unit string, seed uint64) {
 		if !cc.settle() {
 			return
 		}
-		// first leader change
-		cc.isolateAndStop(l0, hot, rng)
+		// first leader change: L0 is only isolated (it stays up, keeps the
+		// cache of its time as leader and learns from Raft that it was
+		// replaced)
+		cc.isolate(l0, hot, rng)
 		n1 := cc.waitLeaderNot(l0.ID)
 		if n1 == nil {
 			return
 		}
+		cc.unpause(l0)
 		cc.checkpoint(n1, rng, "after-leader-change", hot, warm)
 		cc.concurrent(n1, rng, "concurrent-2", hot, warm)
-		for _, k := range hot { // every hot key gets a value L0 has never seen
+		for _, k := range hot { // every hot key gets a value L0 has never stored or cached
 			cc.doSet(n1, 0, k, "at-new-leader")
 		}
-		if !cc.alive() || !cc.restart(l0.ID) {
+		if !cc.alive() {
 			return
 		}
 		if !cc.waitISR(cc.c.IDs...) || !cc.settle() {
